@@ -22,7 +22,7 @@ type RS = ociauth.ResourceScope
 var universe = []RS{
 	{ResourceType: "repository", Resource: "a", Action: "pull"},
 	{ResourceType: "repository", Resource: "a", Action: "push"},
-	{ResourceType: "repository", Resource: "b", Action: "pull"},
+	{ResourceType: "repository", Resource: "catalog", Action: "pull"},
 	{ResourceType: "registry", Resource: "catalog", Action: "*"},
 	{ResourceType: "repository", Resource: "a", Action: "delete"},
 	// an unknown action that sorts between the two known ones
@@ -34,7 +34,7 @@ var universe = []RS{
 	{ResourceType: "urn:a:b:c"},
 	{ResourceType: "registry", Resource: "catalog", Action: "pull"},
 	// thorough only:
-	{ResourceType: "repository", Resource: "b", Action: "push"},
+	{ResourceType: "repository", Resource: "catalog", Action: "push"},
 	{ResourceType: "repository", Resource: "a", Action: ""},
 	{ResourceType: "", Resource: "", Action: ""},
 }
@@ -350,6 +350,31 @@ func main() {
 			return "4+"
 		}
 	}
+	unitedMemo := map[int]ociauth.Scope{}
+	united := func(m int) ociauth.Scope {
+		if u, ok := unitedMemo[m]; ok {
+			return u
+		}
+		// split the members alternately into two parts
+		lo, hi, k := 0, 0, 0
+		for i := 0; i < n; i++ {
+			if m&(1<<i) != 0 {
+				if k%2 == 0 {
+					lo |= 1 << i
+				} else {
+					hi |= 1 << i
+				}
+				k++
+			}
+		}
+		u := scopes[m]
+		if lo != 0 && hi != 0 {
+			u = scopes[lo].Union(scopes[hi])
+			run.Count("scopes_built_by_union", 1)
+		}
+		unitedMemo[m] = u
+		return u
+	}
 	pairs := 0
 	for a := 0; a < nsub; a++ {
 		for b := 0; b < nsub; b++ {
@@ -360,6 +385,13 @@ func main() {
 			}
 			if (a^b)%3 == 1 {
 				B = parsed[b]
+			}
+			// a fourth construction: the same set as the result of a Union of two non-empty, different parts
+			if (a*7+b*13)%5 == 0 {
+				B = united(b)
+			}
+			if (a*11+b*3)%5 == 1 {
+				A = united(a)
 			}
 			rel := "overlap"
 			switch {
